@@ -742,6 +742,32 @@ def rule_offsets(ctx):
         ctx.ob("Collocator._bin_pairs.offset2", v_o2 is not None and norm(defs[P_o2].value) == "%s.index.searchsorted(%s)" % (sec, c2s_name),
                "offset2 = %s" % norm(defs[P_o2].value) if P_o2 in defs else None,
                "searchsorted (left) of the very bound that starts the secondary slice", node=defs.get(P_o2, rets[0]), func=bp)
+    # ... and the interval by which the secondary window is widened is the caller's max_interval - not the bin width (bin_factor * max_interval:
+    # with bin_factor < 1 pairs with bin_factor*max_interval < |dt| < max_interval were never candidates)
+    from ..calls import bind_args
+    sb = ctx.func(COL, "Collocator.spatial_search_with_temporal_binning")
+    sflow = Flow(sb)
+    bcalls = calls_in(sb.node, "_bin_pairs")
+    if not bcalls:
+        raise AnalysisError("spatial_search_with_temporal_binning: the call of _bin_pairs was not found")
+    mi_caller = "max_interval" if "max_interval" in sb.all_params else None
+    if mi_caller is None:
+        raise AnalysisError("spatial_search_with_temporal_binning has no max_interval parameter")
+    handed = []
+    for c_ in bcalls:
+        b_ = bind_args(c_, bp)
+        a_ = b_.get(mi)
+        handed.append(str(norm(sflow.resolve(a_, at=c_, depth=3, stop=(mi_caller,)))).replace(" ", "") if a_ is not None else None)
+    def is_interval(t_):
+        return t_ in (mi_caller, "pd.Timedelta(%s)" % mi_caller, "pd.Timedelta(%s).to_timedelta64()" % mi_caller, "pd.to_timedelta(%s)" % mi_caller)
+    if any(t_ is None for t_ in handed):
+        raise AnalysisError("spatial_search_with_temporal_binning: _bin_pairs is called without its interval")
+    ok_mi = all(is_interval(t_) for t_ in handed)
+    if not ok_mi and not any("bin_factor" in t_ or "bin_duration" in t_ for t_ in handed if not is_interval(t_)):
+        raise AnalysisError("spatial_search_with_temporal_binning: interval %s handed to _bin_pairs not understood" % handed)
+    ctx.ob("Collocator.spatial_search_with_temporal_binning.interval", ok_mi, "_bin_pairs(..., %s=%s)" % (mi, handed),
+           "the caller's max_interval itself (the width of the primary bins is bin_factor * max_interval, the widening of the secondary window is not)",
+           node=bcalls[0], func=sb, witness=None if ok_mi else {"bin_factor": 0.5, "lost": "pairs with 0.5 * max_interval < |dt| < max_interval"})
 
 
 def rule_reuse(ctx):
